@@ -339,6 +339,17 @@ Section Refine.
     destruct (drun eqfold replfix d1 reads) as [d2 ys]. cbn [fst] in *. subst d2. reflexivity.
   Qed.
 
+  (* a search repeated after any binds, searches and probes returns what it
+     returned the first time: reading has no memory *)
+  Theorem search_repeatable d reads base flt :
+    forallb read_only reads = true ->
+    snd (dstep eqfold replfix (fst (drun eqfold replfix d (DSearch base flt :: reads))) (DSearch base flt)) =
+    snd (dstep eqfold replfix d (DSearch base flt)).
+  Proof.
+    intros Hr. rewrite (read_only_run (DSearch base flt :: reads) d); [reflexivity|].
+    cbn [forallb read_only]. exact Hr.
+  Qed.
+
   (* a history whose every operation is usable in the state it meets *)
   Fixpoint hist_ok (d : dir) (ops : list dop) : Prop :=
     match ops with
